@@ -22,7 +22,7 @@ RULE = (
     "differences at relative steps 1e-4 and 1e-5 (both must agree, else inconclusive). distinct = configurations with a non-zero gradient"
 )
 REQUIRED_COVER = ["kind:channel_g", "kind:radius_unequal_groups", "kind:length", "kind:axial_resistivity", "kind:capacitance", "kind:init_v_singular",
-                  "kind:init_gate", "kind:synapse_g", "kind:init_syn_state", "kind:data_stimulate", "kind:data_set", "scheme:crank_nicolson",
+                  "kind:init_gate", "kind:synapse_g", "kind:init_syn_state", "kind:ball_geometry", "kind:data_stimulate", "kind:data_set", "scheme:crank_nicolson",
                   "backend:jaxley.thomas", "backend:jax.sparse", "ckpt:exact", "ckpt:over", "nonzero_gradient"]
 ASSUMPTIONS = [
     "runs are 5 steps long; losses are weighted quadratic forms of the recordings",
@@ -57,6 +57,12 @@ KINDS = {
     "cell:data_stimulate": ("cell_hh_leak", {"mode": "data_stim"}),
     "cell:data_set": ("cell_hh_leak", {"mode": "data_set", "key": "Leak_gLeak", "view": "b1"}),
     "cell:data_set_radius": ("cell_hh_leak", {"mode": "data_set", "key": "radius", "view": "b0"}),
+    # ---- "ball" compartments: length == 2 * radius exactly (what read_swc makes of a single-point soma) -- a special point of the
+    # geometry at which value-equal special-case formulas (sphere vs cylinder area) would have different partial derivatives
+    "comp:ball_radius": ("comp_hh", {"mode": "train", "calls": [("self", "radius")], "geom": [("self", 10.0)]}),
+    "comp:ball_length": ("comp_hh", {"mode": "train", "calls": [("self", "length")], "geom": [("self", 10.0)]}),
+    "cell:ball_soma": ("cell_hh_leak", {"mode": "train", "calls": [("b0c0", "radius"), ("b0c0", "length")], "geom": [("b0c0", 8.0)]}),
+    "net:ball_postsynaptic": ("net_syn", {"mode": "train", "calls": [("postI", "radius"), ("postI", "length")], "geom": [("postI", 6.0)]}),
     # ---- network
     "net:synapse_g": ("net_syn", {"mode": "train", "calls": [("Iono", "IonotropicSynapse_gS")]}),
     "net:synapse_g_edge": ("net_syn", {"mode": "train", "calls": [("Test_e0", "TestSynapse_gC")]}),
@@ -70,6 +76,7 @@ COVER_OF_KIND = {
     "channel_g": "kind:channel_g", "radius_unequal_groups": "kind:radius_unequal_groups", "length": "kind:length",
     "axial_resistivity": "kind:axial_resistivity", "capacitance": "kind:capacitance", "init_v_singular": "kind:init_v_singular",
     "init_v": "kind:init_v_singular", "init_gate": "kind:init_gate", "synapse_g": "kind:synapse_g", "synapse_g_edge": "kind:synapse_g",
+    "ball_radius": "kind:ball_geometry", "ball_length": "kind:ball_geometry", "ball_soma": "kind:ball_geometry", "ball_postsynaptic": "kind:ball_geometry",
     "init_syn_state": "kind:init_syn_state", "data_stimulate": "kind:data_stimulate", "data_set": "kind:data_set", "data_set_radius": "kind:data_set",
 }
 CROSS_KINDS = ["cell:channel_g", "cell:radius_unequal_groups", "net:synapse_g", "cell:init_v_singular"]
@@ -79,7 +86,7 @@ def _view(m, name):
     return {
         "self": lambda: m, "b0": lambda: m.branch(0), "b1": lambda: m.branch(1), "ball": lambda: m.branch("all"), "call": lambda: m.comp("all"),
         "Iono": lambda: m.IonotropicSynapse, "Test_e0": lambda: m.TestSynapse.edge(0), "c0": lambda: m.cell(0), "c1": lambda: m.cell(1),
-        "c1b0": lambda: m.cell(1).branch(0),
+        "c1b0": lambda: m.cell(1).branch(0), "b0c0": lambda: m.branch(0).comp(0), "postI": lambda: m.cell(1).branch(2).comp(0),
     }[name]()
 
 
@@ -93,6 +100,9 @@ def _setup(kind):
         n = len(m.nodes)
         arr = np.asarray((vv * n)[:n])
         m.set("v", arr)
+    for vname, r in spec.get("geom", []):
+        _view(m, vname).set("radius", r)
+        _view(m, vname).set("length", 2.0 * r)
     m.record("v", verbose=False)
     if model_name == "net_syn":
         stim_view = m.cell(0).branch(0).comp(0)
